@@ -522,6 +522,8 @@ class Engine:
             raise Unsupported('nested set comprehension')
         g = node.generators[0]
         src = self.eval(g.iter, st)
+        if src.ty.kind == 'Optional':
+            src = self.coerce(src, src.ty.args[0], st, 'iterated value')
         saved = dict(st.env)
         try:
             if src.ty.kind == 'Set':
@@ -931,6 +933,10 @@ class Engine:
         if k == 'Ref':
             d = self.call_contract_for_method(cont, '__contains__', [x], {}, st, None)
             return self.truth(d, st)
+        if cont.ty.kind == 'NoneT' and self.in_spec:
+            # `x in None` inside a contract expression: only reachable behind an `is not None` conjunct, whose falsity
+            # already decides the clause
+            return z3.BoolVal(False)
         raise Unsupported(f'`in` on {cont.ty!r}')
 
     def seq_member(self, ln, arr, xt):
